@@ -81,6 +81,7 @@ impl Method for FixedMethod {
             self.pending_kar = None;
             self.typed.pop();
             if self.buffer.is_empty() {
+                self.typed.clear();
                 return Suggestion::empty();
             }
             return self.create_suggestion(data, config);
@@ -92,6 +93,7 @@ impl Method for FixedMethod {
 
             if self.buffer.is_empty() {
                 // The buffer is now empty, so return empty suggestion.
+                self.typed.clear();
                 return Suggestion::empty();
             }
 
